@@ -35,6 +35,10 @@ CHECKS = {
                 technique="deterministic simulation: alignment/bounds monitor on every reference at the record's actual address (placements, capacities) + Miri arm with seeded addresses and symbolic alignment check",
                 text="Native arm: for every live record after every step, every accessor's reference must be aligned for its type, inside the capacity, and the record itself aligned, at inline / boxed / shifted placements chosen to land on minimally aligned addresses, for CAP = MAX_SIZE and larger. Miri arm (seeded address allocator, symbolic alignment check, borrow tracking): decides alignment-requiring stores into unaligned destinations, out-of-bounds, use of moved-out/freed memory and pointer provenance for all raw accesses of generated code. Samples; no proof.",
                 note="Typed raw loads/stores inside constructors, conversions and Drop are only visible to the Miri arm, which runs fewer histories (interpretation cost)."),
+    "C11": dict(engine="SIM-F", category="fault_enumeration", design_ref="DESIGN.md 2.4, 3",
+                technique="fault injection at the type-resolver seam: stale size / alignment / may-be-uninit information for each datum, decided by compiling the generated module (rustc type check + const evaluation) against the unperturbed control",
+                text="For every datum of every drawn definition (directed corpus + seeded swarm), introduced in the first or a later variant, the recorded type information is made stale in every listed way (size-1, size+1, size*2, align/2, align*2, may-be-uninit on a non-Copy type) through both entry points (explicit override, edited JSON type table read back by a StaticTypeResolver): the generated module must be rejected by rustc while the unperturbed control compiles. Complete over data x perturbations x entry points of each definition; definitions are sampled. There is no schedule or clock in this property: the simulated fault is the stale table.",
+                note="Trusts rustc; probes are type-checked on this host only (a foreign target cannot be executed here)."),
     "C15": dict(engine="SIM-R", category="fault_enumeration", design_ref="DESIGN.md 2.2, 3",
                 technique="deterministic simulation with fault injection: refinement of serde's tuple implementation under faulty readers/writers, stream mutations and failing element codecs",
                 text="For every variant of serde-enabled definitions, JSON and bincode: encode(record) must equal encode(tuple of its fields) byte for byte, and decode::<Record>(s) must agree with decode::<(T0,..)>(s) (both error, or both ok with equal fields; never a panic) for well-formed streams and for streams truncated at any byte, with a flipped bit, with an extra, missing or wrongly typed element, delivered through readers with short reads, EINTR, an error or early EOF at byte k, and with the n-th element codec failing; after every rejected decode nothing decoded so far survives (ledger). Fault positions are drawn by seed (not exhaustively enumerated per stream).",
@@ -57,7 +61,6 @@ NOT_APPLICABLE = {
 }
 
 PENDING = {
-    "C11": "check under construction (SIM-F, DESIGN.md 2.4): not claimed until the simulator is committed",
     "C14": "check under construction (SIM-T, DESIGN.md 2.3): not claimed until the simulator is committed",
     "C19": "check under construction (SIM-D, DESIGN.md 2.5): not claimed until the simulator is committed",
 }
@@ -71,6 +74,7 @@ HOOKS = dict(
 )
 
 ENGINES = [
+    dict(name="SIM-F", path="sim/simgen (bin simf) + lib/simf.py", serves_properties=["C11"], kind_free_text="stale type table fault enumerator: rebuilds definitions with perturbed type information through the real builder entry points, generates with the real generator, compiles each probe with rustc"),
     dict(name="SIM-R", path="sim/recsim (+ sim/simgen, sim/simrt)", serves_properties=["C04", "C05", "C06", "C07", "C15", "C16"], kind_free_text="record life-cycle simulator: definitions generated by the real truc builder/generator in the simulator's build script, seeded operation histories with fault plans, offset-free reference model, value ledger, allocator seam, faulty Read/Write; native dev/release and Miri arms"),
     dict(name="SIM-V", path="sim/vecsim", serves_properties=["C08", "C09", "C10"], kind_free_text="seeded deterministic simulator of truc_runtime::convert with scripted faulty converter, value ledger and allocator seam; native dev/release and Miri arms"),
 ]
